@@ -1,4 +1,5 @@
 import AmrK.HeaderProofs
+import AmrK.MaxMinsProofs
 import AmrK.Codec
 import AmrK.CellHCodec
 import AmrK.HeaderCodec
@@ -76,5 +77,20 @@ example :
     ([ofString "a", ofString "b", ofString "a", ofString "a"].zipIdx.foldl (fun t (n, i) => addField t n i) []).map
         (fun p => (String.fromUTF8! ⟨p.1.toArray⟩, p.2))
       = [("a", 0), ("b", 1), ("a_2", 2), ("a_3", 3)] := by decide +kernel
+
+/-- **when requested, the per-box minimum and maximum of every field**: the two tables after the `FabOnDisk:` lines
+    (blank line, count line, one comma-terminated row per box) are read back row for row (`MaxMins.readTables`, the executable
+    model of the `maxmins=True` branch of `read_cell_headers`, compared with what the reader exposes for every generated
+    plotfile), and the entry exposed under the `k`-th field for box `b` is the `k`-th value of row `b` -/
+theorem minmax_tables_read_back (mins maxs : List (List Py.Bytes)) (hlen : maxs.length = mins.length)
+    (hmin : ∀ r ∈ mins, ∀ v ∈ r, Py.NoByte 44 v) (hmax : ∀ r ∈ maxs, ∀ v ∈ r, Py.NoByte 44 v)
+    (b1 c1 b2 c2 : Py.Bytes) (rest : List Py.Bytes) :
+    MaxMins.readTables mins.length (b1 :: c1 :: (mins.map CellHRewrite.rowText ++ (b2 :: c2 :: (maxs.map CellHRewrite.rowText ++ rest))))
+      = some (mins, maxs) :=
+  MaxMins.readTables_spec mins maxs hlen hmin hmax b1 c1 b2 c2 rest
+
+theorem minmax_per_field (names : List Py.Bytes) (rows : List (List Py.Bytes)) (k : Nat) (nm : Py.Bytes) (hk : names[k]? = some nm) :
+    (MaxMins.byField names rows)[k]? = some (nm, rows.map (·.getD k [])) :=
+  MaxMins.byField_entry names rows k nm hk
 
 end C02
